@@ -30,14 +30,14 @@ Qed.
 
 (** between top-level operations nothing is executing *)
 Definition Quiet (st : state) : Prop :=
-  Good st /\ s_stack st = [] /\ s_refstack st = [] /\ defs_ok (s_cells st).
+  Good st /\ s_stack st = [] /\ s_refstack st = [].
 
 Lemma rs_ok_zero rs : rs_ok 0 rs -> rs = [].
 Proof. destruct rs as [|[d r] t]; [reflexivity|]. simpl. intros (A & _). lia. Qed.
 
-Lemma Quiet_init cells refs maxd : defs_ok cells -> Quiet (init cells refs maxd).
+Lemma Quiet_init cells refs maxd : Quiet (init cells refs maxd).
 Proof.
-  intros Hok. split; [|repeat split; auto].
+  split; [|repeat split; auto].
   split; [apply Inv_init|]. split.
   - constructor; simpl.
     + intros i H. exfalso. now apply H.
@@ -48,35 +48,41 @@ Proof.
     + intros i [].
     + exact I.
     + intros c [].
+    + apply le_n.
   - intros x [].
+Qed.
+
+(** at the start of a top-level evaluation nothing runs over a failure *)
+Lemma Good_top_start st x y : Good st -> Good (upd_taint (upd_rolled (upd_err st x) y) 0).
+Proof.
+  intros (HI & C & SO). split; [exact HI|]. split; [|exact SO].
+  constructor; try (apply C). simpl. apply Nat.le_0_l.
 Qed.
 
 Theorem eval_top_quiet fuel st i r st' :
   eval_top fuel st i = (r, st') -> r <> OutOfFuel -> Quiet st -> s_reent st = false ->
   s_reent st' = true \/ Quiet st'.
 Proof.
-  intros H Hr (HG & Hs & Hrs & Hok) Hre. pose proof H as H0. unfold eval_top in H.
+  intros H Hr (HG & Hs & Hrs) Hre. pose proof H as H0. unfold eval_top in H.
   destruct (lookup_cell (s_cells st) (fst i)) as [cl|] eqn:El.
-  2:{ inversion H; subst. right. split; [exact HG|]. split; [exact Hs|]. split; [exact Hrs|exact Hok]. }
+  2:{ inversion H; subst. right. split; [exact HG|]. split; [exact Hs|exact Hrs]. }
   destruct (if cl_cached cl then lookup_data (s_data st) i else None) as [v|] eqn:Eh.
-  { inversion H; subst. right. split; [exact HG|]. split; [exact Hs|]. split; [exact Hrs|exact Hok]. }
-  set (st0 := upd_rolled (upd_err st None) []) in *.
-  assert (G0 : Good st0).
-  { destruct HG as (HI & C & SO). split; [exact HI|]. split; [|exact SO]. constructor; apply C. }
+  { inversion H; subst. right. split; [exact HG|]. split; [exact Hs|exact Hrs]. }
+  set (st0 := upd_taint (upd_rolled (upd_err st None) []) 0) in *.
+  assert (G0 : Good st0) by (apply Good_top_start; exact HG).
   destruct (eval_formula fuel st0 cl i) as [rf st1] eqn:Ef.
   assert (Hrf : rf <> OutOfFuel) by (intros ->; inversion H; subst; congruence).
   destruct (proj1 (proj2 (proj2 (proj2 (sim_all fuel)))) _ _ _ _ _ Ef Hrf (proj1 G0) El Eh) as (I1 & F1 & _).
-  pose proof (proj1 (proj2 (proj2 (proj2 (sim2_all fuel)))) _ _ _ _ _ 0 0 Ef Hrf G0 Hok Hre ltac:(change (s_stack st0) with (s_stack st); now rewrite Hs) El Eh) as P.
+  pose proof (proj1 (proj2 (proj2 (proj2 (sim2_all fuel)))) _ _ _ _ _ 0 0 Ef Hrf G0 Hre ltac:(change (s_stack st0) with (s_stack st); now rewrite Hs) El Eh) as P.
   assert (Hst' : s_reent st' = s_reent st1 /\ (Good st1 -> Good st') /\ s_stack st' = s_stack st1 /\
-                 s_refstack st' = s_refstack st1 /\ s_cells st' = s_cells st1).
+                 s_refstack st' = s_refstack st1).
   { assert (Hg : forall x y, Good st1 -> Good (upd_rolled (upd_err st1 x) y)).
     { intros x y (HI & C & SO). split; [exact HI|]. split; [|exact SO]. constructor; apply C. }
-    destruct rf; inversion H; subst; (split; [reflexivity|split; [auto|split; [reflexivity|split; reflexivity]]]). }
-  destruct Hst' as (E1 & E2 & E3 & E4 & E5).
+    destruct rf; inversion H; subst; (split; [reflexivity|split; [auto|split; reflexivity]]). }
+  destruct Hst' as (E1 & E2 & E3 & E4).
   destruct P as [P|(G1 & _)]; [left; congruence|right].
   destruct F1 as (S1 & K1 & _).
   assert (Hk : s_stack st1 = []) by (rewrite K1; exact Hs).
-  split; [now apply E2|]. split; [congruence|]. split.
-  - rewrite E4. apply rs_ok_zero. pose proof (cv_refs _ (proj1 (proj2 G1))) as R. now rewrite Hk in R.
-  - rewrite E5, (static_cells _ _ S1). exact Hok.
+  split; [now apply E2|]. split; [congruence|].
+  rewrite E4. apply rs_ok_zero. pose proof (cv_refs _ (proj1 (proj2 G1))) as R. now rewrite Hk in R.
 Qed.
